@@ -12,9 +12,13 @@ EXTENDS MCGrid, Json, IOUtils, FiniteSetsExt
 Rec == ndJsonDeserialize(IOEnv.TRACE)
 Of(kind) == {i \in DOMAIN Rec : Rec[i].k = kind}
 
-MaOk(e) == MatchAgainst(e.o, e.q) = e.r /\ RuleC05(e.o, e.q, e.r)
+\* the PROPERTY: the documented rule.  Equality with the transcription of the pinned code (MatchAgainst,
+\* and the two helpers C05 does not speak of) is conformance: a mismatch there is drift.
+MaOk(e) == RuleC05(e.o, e.q, e.r)
+MaConf(e) == MatchAgainst(e.o, e.q) = e.r
 WrOk(e) == WithReducedQuantity(e.o, e.n) = e.r
 RiOk(e) == RefreshIceberg(e.o, e.n) = e.r
+DriftMa == {i \in Of("ma") : ~MaConf(Rec[i])}
 
 BadMa == {i \in Of("ma") : ~MaOk(Rec[i])}
 BadWr == {i \in Of("wr") : ~WrOk(Rec[i])}
@@ -26,7 +30,8 @@ Covered == Inputs = GridOrders \X GridQs
 First(S) == IF S = {} THEN 0 ELSE Min(S)
 Summary == [lines |-> Len(Rec), ma |-> Cardinality(Of("ma")), wr |-> Cardinality(Of("wr")), ri |-> Cardinality(Of("ri")),
             badma |-> Cardinality(BadMa), badwr |-> Cardinality(BadWr), badri |-> Cardinality(BadRi),
-            panics |-> Cardinality(Panics), firstbad |-> First(BadMa \cup BadWr \cup BadRi \cup Panics),
+            panics |-> Cardinality(Panics), firstbad |-> First(BadMa \cup Panics),
+            driftma |-> Cardinality(DriftMa), firstdrift |-> First(DriftMa \cup BadWr \cup BadRi),
             covered |-> Covered, grid |-> Cardinality(GridOrders \X GridQs)]
 TInit == o = NoOrder /\ q = 0
 TSpec == TInit /\ [][Next]_vars
